@@ -125,6 +125,47 @@ func segment(g *rng.R, b []byte) (p2p.IOVec, [][]byte) {
 	return v, pristine
 }
 
+// segmentArena lays the segments out the way a sender that slices one buffer would: all in one backing array, with gaps of
+// other bytes between and after them, every segment's capacity reaching to the end of the array. The last handle is the whole
+// array: a Tell may not write to any of it.
+func segmentArena(g *rng.R, b []byte) (v p2p.IOVec, handles, pristine [][]byte) {
+	n := 2 + g.Intn(3)
+	cuts := make([]int, 0, n+1)
+	cuts = append(cuts, 0)
+	rest := len(b)
+	for i := 0; i < n-1; i++ {
+		k := 0
+		if rest > 0 && !g.Chance(1, 5) {
+			k = g.Intn(rest + 1)
+		}
+		cuts = append(cuts, cuts[len(cuts)-1]+k)
+		rest -= k
+	}
+	cuts = append(cuts, len(b))
+	gaps := make([]int, n)
+	total := len(b)
+	for i := range gaps {
+		gaps[i] = g.Intn(24)
+		total += gaps[i]
+	}
+	arena := make([]byte, total)
+	for i := range arena {
+		arena[i] = 0xC7
+	}
+	off := 0
+	for i := 0; i < n; i++ {
+		seg := arena[off : off+cuts[i+1]-cuts[i]]
+		copy(seg, b[cuts[i]:cuts[i+1]])
+		v = append(v, seg)
+		off += len(seg) + gaps[i]
+	}
+	handles = append(append([][]byte{}, v...), arena)
+	for _, h := range handles {
+		pristine = append(pristine, append([]byte{}, h...))
+	}
+	return v, handles, pristine
+}
+
 func lenClassOf(n, mtu, innerMTU int) string {
 	switch {
 	case n == 0:
